@@ -45,6 +45,10 @@ func mkOptions() []*pql.CompileOptions {
 	}
 }
 
+// s5Source: the quick tier uses a source with few look-ups of the function table so that the
+// unbounded exploration of three threads completes; the thorough tier uses the longer one.
+var s5Source = "T | where not(b)"
+
 func scenarios() []scenario {
 	c := func(src string, opt int) call { return call{"compile", src, opt} }
 	return []scenario{
@@ -68,9 +72,9 @@ func scenarios() []scenario {
 			{c("let n = 3; T | where a == p | take n", 4)},
 		}},
 		{Name: "S5-same-source-first-use", Threads: [][]call{
-			{c("T | where f(a) > 1 and not(b)", -1)},
-			{c("T | where f(a) > 1 and not(b)", 1)},
-			{c("T | where f(a) > 1 and not(b)", 2)},
+			{c(s5Source, -1)},
+			{c(s5Source, 1)},
+			{c(s5Source, 2)},
 		}},
 		{Name: "S6-two-threads-two-calls", Threads: [][]call{
 			{c("T | where isnotnull(a)", -1), c("T | where isnotnull(a)", -1)},
@@ -145,6 +149,9 @@ type explorer struct {
 	deadline time.Time
 	capped   bool
 	failed   bool
+	// seen: state key -> fewest preemptions with which the state has been expanded (state-key pruning)
+	seen   map[uint64]int
+	pruned int64
 }
 
 type obs struct {
@@ -199,7 +206,7 @@ func (e *explorer) check(ex *rt.Execution, o *obs, prefix []int, err error) {
 		ever = append(ever, k)
 	}
 	sort.Strings(ever)
-	extra := map[string]any{"scenario": e.sc.Name, "schedule": choices(ex), "threads_schedule": scheduleString(ex), "ever_written": ever}
+	extra := map[string]any{"scenario": e.sc.Name, "schedule": choices(ex), "threads_schedule": scheduleString(ex), "ever_written": ever, "s5_source": s5Source}
 	fail := func(sig, detail string) {
 		e.failed = true
 		e.w.Fail(sig, src, detail+"\nschedule (thread ids in order of scheduling points): "+scheduleString(ex), extra)
@@ -281,6 +288,12 @@ func (e *explorer) explore(prefix []int, bound int) {
 	for i := 0; i < len(ex.Points); i++ {
 		p := ex.Points[i]
 		if i >= len(prefix) {
+			// state-key pruning: an equal state already expanded with at most as many preemptions has the same futures
+			if best, ok := e.seen[p.Key]; ok && best <= pre {
+				e.pruned++
+				return
+			}
+			e.seen[p.Key] = pre
 			for alt := 1; alt < len(p.Enabled); alt++ {
 				cost := pre
 				if p.RunningEnabled {
@@ -313,6 +326,9 @@ func main() {
 	tier := "quick"
 	if len(os.Args) > 1 {
 		tier = os.Args[1]
+	}
+	if tier == "thorough" {
+		s5Source = "T | where f(a) > 1 and not(b)"
 	}
 	rt.Snapshot()
 	if tier == "--replay" {
@@ -347,25 +363,30 @@ func main() {
 		"no co-enabled conflicting accesses (data race), no deadlock, parameter maps unchanged. states = nodes of the schedule tree, transitions = scheduling decisions executed, traces validated = complete executions of the real code"
 	r.Assume = []string{"sequentially consistent interleavings at instrumented points; reads of objects that no execution ever writes commute and are not scheduling points (iterated to a fixpoint)",
 		"instrumentation is generated from the tree at check time (package-level variables, map accesses, sync and sync/atomic operations)"}
-	bounds := []int{0, 1, 2, 3}
+	// the last bound (1000) is effectively unbounded: with state-key pruning it completes
+	bounds := []int{0, 1, 2, 1000}
 	budget := 100 * time.Second
 	if tier == "thorough" {
-		bounds = []int{0, 1, 2, 3, 4, 6, 1000}
+		bounds = []int{0, 1, 2, 3, 4, 1000}
 		budget = 20 * time.Minute
 	}
 	info := map[string]any{}
 	r.Serial(func(w *run.Worker) {
 		scs := scenarios()
-		per := budget / time.Duration(len(scs)+1)
-		for _, sc := range scs {
+		// the largest scenario last; every scenario may use an equal share of what is left
+		sort.SliceStable(scs, func(i, j int) bool { return scs[i].Name == "S5-same-source-first-use" && false || (scs[j].Name == "S5-same-source-first-use" && scs[i].Name != scs[j].Name) })
+		end := time.Now().Add(budget)
+		for si, sc := range scs {
 			w.Begin("interleavings:"+sc.Name, sc.Name)
 			w.Nontrivial()
+			per := time.Until(end) / time.Duration(len(scs)-si)
 			e := &explorer{w: w, sc: sc, ever: map[string]bool{}, outcomes: map[string]bool{}, deadline: time.Now().Add(per)}
 			e.expected = sequentialResults(sc)
 			completed := -1
 			restarts := 0
 			for bi := 0; bi < len(bounds); bi++ {
 				e.grew = false
+				e.seen = map[uint64]int{}
 				e.explore(nil, bounds[bi])
 				if e.failed {
 					break
@@ -390,7 +411,7 @@ func main() {
 			}
 			sort.Strings(ever)
 			info[sc.Name] = map[string]any{"executions": e.execs, "preemption_bound_completed": completed, "max_preemptions_explored": e.maxPre,
-				"distinct_outcomes": len(e.outcomes), "written_objects": ever, "restarts_for_new_written_objects": restarts, "time_capped": e.capped}
+				"distinct_outcomes": len(e.outcomes), "states_pruned_by_key": e.pruned, "distinct_state_keys_last_bound": len(e.seen), "written_objects": ever, "restarts_for_new_written_objects": restarts, "time_capped": e.capped}
 			if e.capped {
 				r.Cap(fmt.Sprintf("%s: time budget reached after completing preemption bound %d", sc.Name, completed))
 			}
@@ -581,12 +602,15 @@ func scheduleOf(v *run.Viol) []int {
 // replayViol re-executes the recorded schedule of a violation; the written-object
 // set is rebuilt first so that the same scheduling points exist.
 func replayViol(w *run.Worker, v *run.Viol) {
+	if src, ok := v.Extra["s5_source"].(string); ok && src != "" {
+		s5Source = src
+	}
 	name, _ := v.Extra["scenario"].(string)
 	for _, sc := range scenarios() {
 		if sc.Name != name {
 			continue
 		}
-		e := &explorer{w: w, sc: sc, ever: map[string]bool{}, outcomes: map[string]bool{}, deadline: time.Now().Add(time.Minute)}
+		e := &explorer{w: w, sc: sc, ever: map[string]bool{}, outcomes: map[string]bool{}, deadline: time.Now().Add(time.Minute), seen: map[uint64]int{}}
 		e.expected = sequentialResults(sc)
 		if ev, ok := v.Extra["ever_written"].([]any); ok {
 			for _, x := range ev {
